@@ -193,12 +193,15 @@ pub struct Observed {
     pub eof_injected_rf: bool,
     pub hard_err: Vec<(String, i64)>, // (class, errno) of hard (non-EINTR) errors that fired
     pub fired: Vec<String>,           // "class:kind" for every scripted event that fired
+    pub records: usize,
     pub reads_r0: usize,
     pub reads_rf: usize,
     pub writes_w1: usize,
     pub opens: usize,
     pub getrandom: usize,
     pub timed_out: bool,
+    /// the shim stopped the program: too many calls of one class after the fault script was exhausted
+    pub livelock: Option<String>,
     pub script_left: Vec<(String, usize, usize)>,
 }
 
@@ -300,13 +303,27 @@ pub fn run_case(case: &Case, bins: &Binaries, timeout_s: u64) -> Result<Observed
     }
     o.stdout_pipe = out.stdout;
     let log_text = String::from_utf8_lossy(&out.stderr).to_string();
-    for line in log_text.lines() {
+    // every record is parsed; only the first KEEP_HEAD and the last KEEP_TAIL are stored (a run chunked into
+    // single bytes, or one stopped by the step bound, has hundreds of thousands of records)
+    const KEEP_HEAD: usize = 400;
+    const KEEP_TAIL: usize = 40;
+    let total_lines = log_text.lines().count();
+    o.records = total_lines;
+    for (ln, line) in log_text.lines().enumerate() {
+        let keep = ln < KEEP_HEAD || ln + KEEP_TAIL >= total_lines;
+        if ln == KEEP_HEAD && total_lines > KEEP_HEAD + KEEP_TAIL {
+            o.log.push(format!("... {} records not stored ...", total_lines - KEEP_HEAD - KEEP_TAIL));
+        }
         if !line.starts_with('@') {
             // anything on the real stderr that is not a shim record (e.g. the dynamic loader)
-            o.log.push(format!("?{}", line));
+            if keep {
+                o.log.push(format!("?{}", line));
+            }
             continue;
         }
-        o.log.push(line.to_string());
+        if keep {
+            o.log.push(if line.len() > 600 { format!("{}…", &line[..600]) } else { line.to_string() });
+        }
         if line.starts_with("@START") {
             o.started = true;
         } else if line.starts_with("@END") {
@@ -320,6 +337,8 @@ pub fn run_case(case: &Case, bins: &Binaries, timeout_s: u64) -> Result<Observed
                     }
                 }
             }
+        } else if line.starts_with("@LIVELOCK") {
+            o.livelock = Some(line.to_string());
         } else if line.starts_with("@G") {
             o.getrandom += 1;
         } else if line.starts_with("@R ") {
@@ -635,6 +654,9 @@ pub fn judge(case: &Case, o: &Observed) -> Verdict {
     };
     if o.timed_out {
         return v("hang", "process did not terminate although the fault plan is finite".into(), &expect);
+    }
+    if let Some(l) = &o.livelock {
+        return v("hang", format!("no progress within the step bound after the faults stopped: {}", l), &expect);
     }
     let out_check = |bytes: &Vec<u8>| -> Result<(), (String, String)> {
         if let Some(s) = o.signal {
